@@ -16,8 +16,8 @@ from harness.props import c02_render as R
 
 PROP = "C02"
 FLAGS = ["q_py_bool_is_number", "q_py_upper_neg_flagged", "q_py_upper_ann_flagged", "q_py_upper_tuple_flagged",
-         "q_ts_hex_e_float", "q_ts_bigint_dropped", "q_ts_test_marker_anywhere", "q_rs_hex_suffix_clash"]
-LANG_FLAGS = {"MPy": FLAGS[0:4], "MTs": FLAGS[4:7], "MRs": FLAGS[7:8]}
+         "q_ts_hex_e_float", "q_ts_bigint_dropped", "q_ts_test_marker_anywhere", "q_rs_hex_suffix_clash", "q_ts_single_letter_const"]
+LANG_FLAGS = {"MPy": FLAGS[0:4], "MTs": FLAGS[4:7] + FLAGS[8:9], "MRs": FLAGS[7:8]}
 COQ_LANG = {"py": "MPy", "ts": "MTs", "js": "MTs", "rs": "MRs"}
 HEADER = ("From Coq Require Import ZArith.\n"
           "From TL Require Import Lib.Base Model.MagicNum Model.Magic Model.MagicSpec Model.MagicRun Actual.MagicActual.\n")
@@ -37,8 +37,13 @@ FN_ATTRS = ["#[test]", "#[tokio::test]", "#[inline]", "#[allow(dead_code)]", "#[
 MOD_ATTRS = ["#[cfg(test)]", "#[allow(dead_code)]"]
 INT_SUFFIXES = ["u8", "u16", "u32", "u64", "u128", "usize", "i8", "i16", "i32", "i64", "i128", "isize"]
 FLOAT_SUFFIXES = ["f32", "f64"]
-LOWER_NAMES = ["val", "timeout", "max_retries", "bufSize", "x1", "total_count", "maxValue", "Max_val", "foo", "compute", "process_item"]
-UPPER_NAMES = ["MAX_SIZE", "TIMEOUT_SECONDS", "DEFAULT_PORT", "LIMITS", "PI2", "MAX_V", "OFFSET", "HTTP_OK", "BUFFER_SIZE_BYTES", "XY"]
+# names that are not UPPER_CASE constants (MagicSpec.spec_upper_name = false): lower / mixed case, one letter, no letter at all
+LOWER_NAMES = ["val", "timeout", "max_retries", "bufSize", "x1", "total_count", "maxValue", "Max_val", "N", "X", "_", "_1", "__",
+               "_private_val", "n_2", "x", "mAX", "Max", "_x", "process_item"]
+CALL_NAMES = ["foo", "compute", "process_item", "getValue", "Build", "N", "f2"]
+# UPPER_CASE names (spec_upper_name = true): digits, leading / trailing / double underscores, two characters
+UPPER_NAMES = ["MAX_SIZE", "TIMEOUT_SECONDS", "DEFAULT_PORT", "LIMITS", "PI2", "MAX_V", "OFFSET", "HTTP_OK", "BUFFER_SIZE_BYTES", "XY",
+               "_BACKOFF_SECONDS", "__CACHE_SLOTS", "_POOL_SIZE", "MAX_", "X1", "A_B", "V2_LIMIT", "__X__", "_N", "N_", "A__B", "_9X"]
 COMMON_VALUES = [0, 1, 2, 3, 5, 7, 10, 12, 21, 42, 60, 100, 255, 300, 443, 1000, 1024, 3600, 8080, 65535]
 
 
@@ -101,7 +106,9 @@ def gen_numeric(r, lang, small_bias=False):
     elif k < 0.7:                                            # hex / octal / binary
         radix = wchoice(r, [("Hex", 6), ("Oct", 2), ("Bin", 2)])
         base = R.BASE[radix]
-        if radix == "Hex" and r.random() < 0.5:              # digits e / f on purpose
+        if lang != "rs" and r.random() < 0.3:                # 0X / 0O / 0B (Rust has lower-case prefixes only)
+            radix += "U"
+        if radix.startswith("Hex") and r.random() < 0.5:              # digits e / f on purpose
             ds = [r.choice([14, 15, 1, 15, 14, 10, 3, 2]) for _ in range(r.randint(1, 4))]
             if lang == "rs" and r.random() < 0.5:
                 ds = ds[:2] + [15] + r.choice([[3, 2], [6, 4]])   # 0x..f32 / 0x..f64
@@ -117,7 +124,7 @@ def gen_numeric(r, lang, small_bias=False):
             fp = [0] * len(fp) if r.random() < 0.6 else fp[:-1] + [0]      # 3.0, 2.50: equal to shorter decimals / ints
         ex = None
         if not fp or r.random() < 0.3:
-            ex = [r.random() < 0.4, digits_of(r.randint(0, 6), 10)]
+            ex = [r.random() < 0.4, digits_of(r.randint(0, 6), 10), r.random() < 0.35]      # 1e5 / 25E-1
         lit = ["Float", ip, fp, ex, ""]
     # suffixes
     if lang in ("ts", "js") and lit[0] == "Int" and r.random() < 0.12:
@@ -156,7 +163,7 @@ def gen_site(r, lang, kind):
     ctxs = [(c, CTX_WEIGHTS[c]) for c in R.CTXS["ts" if lang == "js" else lang] if R.ctx_ok(lang, kind, c)]
     c = wchoice(r, ctxs)
     upper = c in ("Upper", "UpperNeg", "UpperAnn", "UpperTuple", "RsStatic", "TsEnum")
-    name = r.choice(UPPER_NAMES) if upper else r.choice(LOWER_NAMES)
+    name = r.choice(UPPER_NAMES) if upper else r.choice(CALL_NAMES) if c in ("Arg", "Decorator", "Kwarg", "Macro") else r.choice(LOWER_NAMES)
     n = 1
     if c in R.MULTI:
         n = r.choice([1, 2, 2, 3]) if c != "DictKeys" else r.choice([1, 2, 3, 4, 5, 5, 6])
@@ -499,7 +506,7 @@ def lit_kinds(f):
                 if l[0] == "Int":
                     ks.add("lit:" + l[1] + ("_" if len(l[2]) > 1 else "") + ("+suffix" if l[4] else ""))
                 elif l[0] == "Float":
-                    ks.add("lit:Float" + ("e" if l[3] is not None else "") + ("+suffix" if l[4] else ""))
+                    ks.add("lit:Float" + (("E" if len(l[3]) > 2 and l[3][2] else "e") if l[3] is not None else "") + ("+suffix" if l[4] else ""))
                 else:
                     ks.add("lit:" + l[0])
     return ks
